@@ -11,7 +11,7 @@ from qvm.instrs import op_to_instr, op_code_to_instr
 from qvm.memlayout import get_type_size
 
 LEAN_MODULE = 'QbeeModel.Props.C03'
-REQUIRED = ['allBinOk_true', 'allUnOk_true', 'compileE_stack_typed']
+REQUIRED = ['allBinOk_true', 'allUnOk_true', 'compileE_stack_typed', 'statement_boundary_depth', 'handled_error_reaches_boundary_depth']
 TYN = {'INTEGER': 'i', 'LONG': 'l', 'SINGLE': 's', 'DOUBLE': 'd', 'STRING': 'str'}
 TCH = {'i': '%', 'l': '&', 's': '!', 'd': '#', 'str': '$'}
 MARK = {'i': 2000, 'l': 2001, 's': 2002, 'd': 2003, 'str': 2004}
